@@ -148,11 +148,13 @@ def gen(ctx):
         perms = list(itertools.permutations(range(n)))
         for perm in perms:
             for tset in ([1] * n, [50] * n, list(range(1, n + 1)), [49, 50, 51, 52][:n], [10, 60, 110, 160][:n]):
-                for notifs in (0, 1):
+                for notifs in (0, 1, 2):
                     arr = []
                     for pos, k in enumerate(perm):
                         if notifs:
-                            arr.append((tset[pos], ("notif",)))
+                            # something that answers nobody: a notification, or the null-id error a peer sends when it could
+                            # not read SOMEBODY's message (Parse error / Invalid Request)
+                            arr.append((tset[pos], ("notif",) if notifs == 1 else ("nullerr",)))
                         arr.append((tset[pos], ("res", ("caller", k), 100 + k)))
                     arr.sort(key=lambda x: x[0])
                     out.append({"callers": [(names[k], 300) for k in range(n)], "arrivals": arr})
@@ -189,7 +191,8 @@ def gen(ctx):
             t = rng.choice(times + [callers[k][1] - 1, callers[k][1], callers[k][1] + 1])
             arr.append((t, (kind, ("caller", k), 100 + k) if kind == "res" else ("err", ("caller", k), -32603, None)))
         for _j in range(rng.randrange(0, 4)):
-            arr.append((rng.choice(times), rng.choice((("notif",), ("res", ("str", "zz-other"), 5), ("req", ("caller", rng.randrange(n)))))))
+            arr.append((rng.choice(times), rng.choice((("notif",), ("nullerr",), ("nullres",), ("res", ("str", "zz-other"), 5),
+                                                          ("req", ("caller", rng.randrange(n)))))))
         arr.sort(key=lambda x: x[0])
         out.append({"callers": callers, "arrivals": arr})
     return out
